@@ -368,6 +368,18 @@ def match_arms(f, sp, ctx, ifnode, t, e):
         if (a["root"] is None) != (b["root"] is None):
             return "root present in one arm only"
         if a["root"] is not None:
+            # the arm taken under `rank == X` is the one that owns the data: its root must be that very rank
+            for tf in tfacts:
+                if tf[0] == "==" and (rank_tainted(tf[1]) or rank_tainted(tf[2])):
+                    mine = tf[1] if rank_tainted(tf[1]) else tf[2]
+                    if rw(a["root"]) != rw(mine):
+                        return "%s in the arm taken by the rank that owns the data (%s) uses root %s: the data of another rank is broadcast" % (
+                            a["op"].split("::")[-1], fact_str(tf), ks(a["root"]))
+            for tf in efacts:
+                if tf[0] == "==" and (rank_tainted(tf[1]) or rank_tainted(tf[2])):
+                    mine = tf[1] if rank_tainted(tf[1]) else tf[2]
+                    if rwe(b["root"]) != rwe(mine):
+                        return "%s in the arm taken by the rank that owns the data (%s) uses root %s" % (b["op"].split("::")[-1], fact_str(tf), ks(b["root"]))
             ra, rb = rw(a["root"]), rw(b["root"])
             ra2, rb2 = rwe(a["root"]), rwe(b["root"])
             if ra != rb and ra2 != rb2:
